@@ -5,6 +5,7 @@ import (
 	"go/constant"
 	"go/token"
 	"go/types"
+	"strings"
 
 	"golang.org/x/tools/go/cfg"
 )
@@ -15,7 +16,8 @@ func init() {
 		Explanation: "Decides structural conditions for 'packing preserves the reference map': (packed-refs-hash-only) in DotGit.PackRefs a line is written to the packed-refs temp file, and a loose file is removed, " +
 			"only on the Type()==HashReference edge; (pack-refs-order) packed-refs is locked before the loose refs are read, the temp file replaces packed-refs before any loose ref is removed, and " +
 			"rewritePackedRefsWithoutRef replaces the file only when the name was found; (loose-shadows-packed) Refs and PackRefs collect loose refs before packed ones into the same `seen` set; " +
-			"(packed-line-shape) processLine rejects lines that do not have exactly two fields. Not decided: map equivalence over operation histories; peeled (^) lines.",
+			"(packed-line-shape) processLine rejects lines that do not have exactly two fields; the loose walk marks a name as seen (shadowing the packed value) only behind the success edge of the call that reads the loose file. " +
+			"Not decided: map equivalence over operation histories; peeled (^) lines.",
 		Assumptions: []string{"billy Rename replaces the destination atomically where the platform does"},
 		Run:         runC15,
 	})
@@ -196,6 +198,41 @@ func runC15(c *Ctx) {
 			}
 		}
 		c.Check(!bad && same && len(f.Locs(loose)) > 0 && len(f.Locs(packed)) > 0, r3, fi.Name(), fi.Decl.Pos(), "loose refs are collected first and packed refs are filtered through the same `seen` set")
+	}
+	// a loose name shadows the packed value only when its loose file was read successfully: in the loose walk every
+	// `seen[...] = true` lies behind the success edge of the call that reads the loose file (an empty, vanished or
+	// unreadable loose file must leave the packed value visible)
+	if wt := c.MustFunc(r3, dotgitShort+".(*DotGit).walkReferencesTree"); wt != nil {
+		c.Analysed(wt)
+		f := p.FlowOf(wt)
+		readOK := ErrGuard(func(_ *Flow, call *ast.CallExpr) bool {
+			fn := Callee(info, call)
+			return fn != nil && (fn.Name() == "readReferenceFile" || fn.Name() == "readReferenceFrom")
+		})
+		marks := f.Locs(func(n ast.Node) bool {
+			as, ok := n.(*ast.AssignStmt)
+			if !ok {
+				return false
+			}
+			for _, l := range as.Lhs {
+				if ix, ok := unparen(l).(*ast.IndexExpr); ok {
+					if tv := info.Types[ix.X]; tv.Type != nil {
+						if m, isMap := tv.Type.Underlying().(*types.Map); isMap && strings.HasSuffix(m.Key().String(), "ReferenceName") {
+							return true
+						}
+					}
+				}
+			}
+			return false
+		})
+		ok := len(marks) > 0
+		why := ""
+		for _, l := range marks {
+			if h := f.UnguardedPath(readOK, l); h != nil {
+				ok, why = false, "a name is marked as seen without a successful read of its loose file: an empty or unreadable loose file hides the packed value from listings, and the next PackRefs drops the reference"+hitLines(f, h)
+			}
+		}
+		c.Check(ok, r3, wt.Name()+":seen-after-successful-read", wt.Decl.Pos(), orStr(why, "names are marked seen only after their loose file was read successfully"))
 	}
 	// set-always-writes: a successful SetRef has written the loose file; a successful RemoveRef has consulted both the
 	// loose file and packed-refs (a shortcut that "knows" the value is already stored is wrong when a loose file shadows packed-refs)
